@@ -386,6 +386,34 @@ func (F *bfn) defFacts(z *zone, site ssa.Instruction) {
 					}
 					z.add(r.a, s.a, s.k-k1-r.k)
 					z.add("0", r.a, 1+r.k) // r >= -1
+					// the last occurrence is not before the first one
+					if strings.Contains(name, ".Last") && len(x.Call.Args) == 2 {
+						if sepL, okL := F.oneByteSep(x.Call.Args[1]); okL {
+							strL := F.rep(x.Call.Args[0])
+							lastLin := r
+							for _, b2 := range F.f.Blocks {
+								for _, in2 := range b2.Instrs {
+									ic, isCall := in2.(*ssa.Call)
+									if !isCall || ic == x || in2 == site || !instrDominates(in2, site) {
+										continue
+									}
+									n2 := calleeQ(&ic.Call)
+									if !indexFns[n2] || strings.Contains(n2, ".Last") || len(ic.Call.Args) != 2 || F.rep(ic.Call.Args[0]) != strL {
+										continue
+									}
+									if s2, ok2 := F.oneByteSep(ic.Call.Args[1]); !ok2 || s2 != sepL {
+										continue
+									}
+									firstLin := F.linear(ic)
+									z.pending = append(z.pending, func() {
+										if z.le("0", firstLin.a, firstLin.k) { // found at all
+											z.addLE(firstLin, lastLin, 0)
+										}
+									})
+								}
+							}
+						}
+					}
 					if k > 1 {
 						kk := k
 						z.pending = append(z.pending, func() {
